@@ -1627,7 +1627,10 @@ int hwloc_bitmap_compare_first(const struct hwloc_bitmap_s * set1, const struct 
 		}
 	}
 
-	return !!set1->infinite - !!set2->infinite;
+	/* all ulongs are empty, an infinite set starts right after them
+	 * and is smaller than an empty one
+	 */
+	return !!set2->infinite - !!set1->infinite;
 }
 
 int hwloc_bitmap_compare(const struct hwloc_bitmap_s * set1, const struct hwloc_bitmap_s * set2)
